@@ -113,6 +113,16 @@ class VLoop(base_events.BaseEventLoop):
         self.spin_limit = 1500
         self.spin_advances = 0
         self.harness_timers: set = set()
+        self._task_seq = 0
+        self.set_task_factory(self._make_task)
+
+    def _make_task(self, loop, coro, **kw):
+        # number tasks in creation order: asyncio.all_tasks() is a set ordered by object address, which the engine must not depend on
+        import asyncio
+        t = asyncio.Task(coro, loop=loop, **kw)
+        self._task_seq += 1
+        t._vseq = self._task_seq
+        return t
 
     # ---- clock -------------------------------------------------------------------------------------
     def time(self):
